@@ -299,6 +299,23 @@ def clause_f_python(ctx: Context) -> None:
                     return leaves or rebinds
                 return is_guard
 
+            parents_: Dict[int, ast.AST] = {}
+            for x_ in ast.walk(fn.node):
+                for ch_ in ast.iter_child_nodes(x_):
+                    parents_[id(ch_)] = x_
+
+            def under_test_of(node: ast.AST, name: str) -> bool:
+                """the use sits in a branch of an `if` / conditional expression whose test looks at the name (`if s != 0: m = m / s`,
+                `m / s if s else m`): the programmer handled the zero case explicitly"""
+                cur = node
+                while id(cur) in parents_:
+                    par = parents_[id(cur)]
+                    if isinstance(par, (ast.If, ast.IfExp)) and cur is not par.test \
+                            and any(isinstance(y, ast.Name) and y.id == name for y in ast.walk(par.test)):
+                        return True
+                    cur = par
+                return False
+
             def unguarded(nd, name: str) -> bool:
                 # a guard that rebinds the name does not dominate in the CFG sense (both branches continue): accept it when it precedes
                 # the use in the same block chain, i.e. the use is not reachable from ENTRY without passing the guard's test node
@@ -311,6 +328,7 @@ def clause_f_python(ctx: Context) -> None:
                 for x in cfgmod.own_nodes(nd):
                     if isinstance(x, ast.BinOp) and isinstance(x.op, (ast.Div, ast.FloorDiv)) and isinstance(x.right, ast.Name):
                         divs.append((nd, x, x.right.id))
+            divs = [(nd, x, name) for nd, x, name in divs if not under_test_of(x, name)]
             for nd, x, name in divs:
                 if name in norms and unguarded(nd, name):
                     if round_ == 1:
